@@ -7,6 +7,7 @@ def configs(tier):
         ('root children 2docs x 2slots, all alternatives', dict(family='root_level', fam_kw=dict(docs=2, slots=2, attrs=0, text=False, pool=3, leaf_form=False))),
         ('root children 3docs x 2slots, perm+dup', dict(family='root_level', fam_kw=dict(docs=3, slots=2, attrs=0, text=False, pool=2, leaf_form=False, root_form=False), alts_kinds=('perm', 'dup'))),
         ('root attributes+text 2docs, all alternatives', dict(family='root_level', fam_kw=dict(docs=2, slots=0, attrs=2, text=True, pool=2, leaf_form=False))),
+        ('render between the steps: nested 2docs x 1occ x 2slots', dict(family='one_level', fam_kw=dict(docs=2, occ=1, slots=2, attrs=0, text=False, pool=2, leaf_form=False, p_form=False, first_present=False), alts_kinds=('rendered',))),
         ('root attributes 3docs, perm+dup', dict(family='root_level', fam_kw=dict(docs=3, slots=0, attrs=2, text=False, pool=2, leaf_form=False, root_form=False), alts_kinds=('perm', 'dup'))),
         ('namespace-prefixed root: children 2docs x 2slots, all alternatives', dict(family='root_level', fam_kw=dict(docs=2, slots=2, attrs=0, text=False, leaf_form=False, rname='h:r', names=['ns:c', 'c']))),
         ('nested 2docs x 2occ x 1slot, perm+dup+err', dict(family='one_level', fam_kw=dict(docs=2, occ=2, slots=1, attrs=0, text=False, pool=2, leaf_form=False, p_form=False, first_present=False), alts_kinds=('perm', 'dup', 'err'))),
@@ -32,7 +33,7 @@ def main():
     ]
     if c.setup():
         for label, kw in configs(c.tier):
-            c.run(label, 'rsym.hb', 'ExtendUnion', kw, required_witnesses=('alt:perm',), time_cap=150 if c.tier == 'quick' else 2400)
+            c.run(label, 'rsym.hb', 'ExtendUnion', kw, required_witnesses=('alt:perm',) if 'perm' in kw.get('alts_kinds', ('perm',)) else (), time_cap=150 if c.tier == 'quick' else 2400)
         # any number of extensions: extend_struct is build_struct on a wrapper holding the old root, i.e. the inductive step of DESIGN §3.4
         for label, kw in [('inductive step (one more document for an arbitrary root state): 1 old child + grandchild', dict(k=1, j=0, slots=2, new=1, gk=1)),
                           ('inductive step: 2 old attributes', dict(k=0, j=2, slots=0, new=0))] + ([('inductive step: 2 old children, 2 slots', dict(k=2, j=0, slots=2, new=1))] if c.tier == 'thorough' else []):
